@@ -306,3 +306,11 @@ package html
 //@ func NewLivingVisibility
 //@   props C17
 //@   ensures valid: result == LivingVisibilityShow || result == LivingVisibilityHide || result == LivingVisibilityPlaceholder
+
+// C19: a failed write is reported. Each publishing worker only ever REPLACES
+// the shared error by a failure: once some worker has recorded an error, no
+// later successful write can erase it.
+//@ func Publisher.Publish$1
+//@   props C19
+//@   loop 1 iter failure-is-kept: implies(!isnil(old(err)), !isnil(err))
+//@   ensures failure-is-kept: implies(!isnil(old(err)), !isnil(err))
